@@ -891,6 +891,9 @@ _reg(ExportProp())
 
 # ------------------------------------------------------------------------------------------ histories, concurrency
 
+from .vec import special_vector  # noqa: E402
+
+
 def gen_history(rng, nshared=0, shared_desc=None, maxops=40):
     """a random history: objects of random version/level, decodes of valid and invalid strings
     (also into used objects), query bursts, views, reports, exports; returns (ops, slotinfo)"""
@@ -908,8 +911,10 @@ def gen_history(rng, nshared=0, shared_desc=None, maxops=40):
         elif c < 40 and priv:
             i = rng.choice(priv)
             ver, L, _ = slots[i]
-            k = rng.below(10)
-            if k < 6:
+            k = rng.below(12)
+            if k >= 10:
+                s = special_vector(rng, ver, L)
+            elif k < 6:
                 s = vec.rand_v3(rng, L) if ver == 3 else vec.rand_v2(rng, L)
             elif k < 8:
                 s = (vec.rand_v3(rng, 2) if ver == 3 else vec.rand_v2(rng, 2))       # maybe too high a level
